@@ -12,7 +12,6 @@ package ext
 //@ func bodyStream.Read(rs, p) n, err
 //@   props C14
 //@   nosafety
-//@   replay-import strings
 //@   replay-import github.com/cloudwego/hertz/pkg/common/bytebufferpool
 //@   replay-import github.com/cloudwego/hertz/pkg/common/test/mock
 //@   replay-go body := strings.Repeat("a", 10000); conn := mock.NewConn(body + strings.Repeat("N", 300)); rs := AcquireBodyStream(&bytebufferpool.ByteBuffer{}, conn, nil, 10000); total := 0; buf := make([]byte, 4096); for { n, err := rs.Read(buf); total += n; if err != nil { break } }; if total > 10000 { fmt.Println("VCGO-VIOLATED a 10000-byte streamed body delivered", total, "bytes (the excess belongs to the next request)") }
